@@ -19,8 +19,8 @@ using namespace vf;
 #endif
 
 static const char *feat(int i) {
-  static const char *n[] = {"len_ge_2", "non_pointer_iterator", "non_trivial_value", "throw_at_interior_index", "throw_at_first", "throw_at_last", "wrapped_forward_destination", "relocate", "array_construct_at"};
-  return i < 9 ? n[i] : 0;
+  static const char *n[] = {"len_ge_2", "non_pointer_iterator", "non_trivial_value", "throw_at_interior_index", "throw_at_first", "throw_at_last", "wrapped_forward_destination", "relocate", "array_construct_at", "converting_source_and_destination_types", "constructor_overload_choice"};
+  return i < 11 ? n[i] : 0;
 }
 
 // element whose move constructor can throw (only here)
@@ -30,6 +30,9 @@ class ThrM {
   explicit ThrM(int v) : _id(0), _magic(kLiveMagic) { fault_point(); _id = cell_new(v); }
   ThrM(const ThrM &o) : _id(0), _magic(kLiveMagic) { int v = o.val(); fault_point(); _id = cell_new(v); }
   ThrM(ThrM &&o) : _id(0), _magic(kLiveMagic) { fault_point(); _id = o._id; o._id = 0; }
+  struct NoFault {};
+  ThrM(NoFault, const ThrM &o) noexcept : _id(0), _magic(kLiveMagic) { _id = cell_new(o.val()); }
+  void assign_nofault(const ThrM &o) noexcept { int v = o.val(); if (_id) cells().val[_id] = v; else _id = cell_new(v); }
   ThrM &operator=(const ThrM &o) { int v = o.val(); fault_point(); if (_id) cells().val[_id] = v; else _id = cell_new(v); return *this; }
   ThrM &operator=(ThrM &&o) { if (this != &o) { if (_id) cell_free(_id, "ThrM move assignment"); _id = o._id; o._id = 0; } return *this; }
   ~ThrM() {
@@ -58,6 +61,17 @@ class ThrMO : public ThrM {
   ThrMO &operator=(const ThrMO &) = delete;
   ThrMO(ThrMO &&o) : ThrM(std::move(o)) {}
   ThrMO &operator=(ThrMO &&o) { ThrM::operator=(std::move(o)); return *this; }
+};
+
+// throwing move but noexcept copy (the copy is not a fault point)
+class ThrMNC : public ThrM {
+ public:
+  ThrMNC() : ThrM() {}
+  explicit ThrMNC(int v) : ThrM(v) {}
+  ThrMNC(const ThrMNC &o) noexcept : ThrM(NoFault(), o) {}
+  ThrMNC &operator=(const ThrMNC &o) noexcept { ThrM::assign_nofault(o); return *this; }
+  ThrMNC(ThrMNC &&o) noexcept(false) : ThrM(std::move(o)) {}
+  ThrMNC &operator=(ThrMNC &&o) noexcept(false) { ThrM::operator=(std::move(o)); return *this; }
 };
 
 // forward iterator over raw storage (not a pointer: selects the non-memcpy code paths)
@@ -102,9 +116,11 @@ static int vget(const ThrM &e) { return e.val(); }
 template <class E> struct Mk { static E make(int v) { return ET<E>::make(v); } };
 template <> struct Mk<ThrM> { static ThrM make(int v) { return ThrM(v); } };
 template <> struct Mk<ThrMO> { static ThrMO make(int v) { return ThrMO(v); } };
+template <> struct Mk<ThrMNC> { static ThrMNC make(int v) { return ThrMNC(v); } };
 template <class E> struct IsTracked { static const bool value = ET<E>::tracked; };
 template <> struct IsTracked<ThrM> { static const bool value = true; };
 template <> struct IsTracked<ThrMO> { static const bool value = true; };
+template <> struct IsTracked<ThrMNC> { static const bool value = true; };
 template <class E> struct IsTriv { static const bool value = std::is_trivially_copyable<E>::value; };
 
 struct ArmGuard {
@@ -477,6 +493,107 @@ template <class E> static E *mk_ptr(E *p) { return p; }
 template <class E> static std::reverse_iterator<E *> mk_rev(E *p) { return std::reverse_iterator<E *>(p); }
 template <class E> static FwdRaw<E> mk_fwd(E *p) { return FwdRaw<E>(p); }
 
+// ---- source and destination of different value types: the algorithms construct D from *src like the standard ones, never by raw bytes
+template <class S, class D> struct Conv { static D ref(const S &v) { return D(v); } };
+template <class S, class D, class SIt, class DIt>
+static void convert_case(const char *sn, const char *dn, int algo, long len, const char *itn, SIt (*mksrc)(S *), DIt (*mkdst)(D *)) {
+  static Buf<S> sbuf;
+  static Buf<D> dbuf;
+  char key[220];
+  static const char *an[] = {"uninitialized_copy", "uninitialized_copy_n", "uninitialized_move", "uninitialized_move_n", "uninitialized_relocate", "uninitialized_relocate_n"};
+  snprintf(key, sizeof key, "%s %s->%s iterators=%s len=%ld", an[algo], sn, dn, itn, len);
+  if (!enum_begin(key)) return;
+  ledgers_reset();
+  sbuf.scribble();
+  dbuf.scribble();
+  feature(9);
+  if (len >= 2) feature(0);
+  static const int pat[] = {0, 1, 2, 0x80, 0xFF, 3, 0x7F, 100, 0x55, 0xAA, 7};
+  for (long i = 0; i < len; ++i) new (sbuf.at(i)) S(static_cast<S>(pat[i % 11] + (sizeof(S) > 1 ? 256 * (i % 5) : 0)));
+  std::vector<S> srcvals;
+  for (long i = 0; i < len; ++i) srcvals.push_back(*sbuf.at(i));
+  SIt f = mksrc(sbuf.at(0)), l = mksrc(sbuf.at(len));
+  DIt d = mkdst(dbuf.at(0));
+  long ret = -1;
+  switch (algo) {
+    case 0: ret = static_cast<long>(raw_of(amc::uninitialized_copy(f, l, d)) - dbuf.at(0)); break;
+    case 1: ret = static_cast<long>(raw_of(amc::uninitialized_copy_n(f, len, d)) - dbuf.at(0)); break;
+    case 2: ret = static_cast<long>(raw_of(amc::uninitialized_move(f, l, d)) - dbuf.at(0)); break;
+    case 3: ret = static_cast<long>(raw_of(amc::uninitialized_move_n(f, len, d).second) - dbuf.at(0)); break;
+    case 4: ret = static_cast<long>(raw_of(amc::uninitialized_relocate(f, l, d)) - dbuf.at(0)); break;
+    default: ret = static_cast<long>(raw_of(amc::uninitialized_relocate_n(f, len, d).second) - dbuf.at(0)); break;
+  }
+  if (ret != len) violation(P15, "returned iterator is %ld past the destination start, expected %ld", ret, len);
+  for (long i = 0; i < len && !failed(); ++i) {
+    const D expect = Conv<S, D>::ref(srcvals[static_cast<size_t>(i)]);
+    if (memcmp(dbuf.at(i), &expect, sizeof(D)) != 0)
+      violation(P15, "destination element %ld does not hold the value converted from the source (a %s built from %s %ld): raw bytes were copied", i, dn, sn,
+                static_cast<long>(srcvals[static_cast<size_t>(i)]));
+  }
+  if (!failed() && !dbuf.canary_ok(len)) violation(P15, "memory outside the destination range was written");
+  enum_end(len >= 2);
+}
+template <class S, class D>
+static void convert_cases(const char *sn, const char *dn) {
+  static const long lens[] = {0, 1, 2, 5, 11, 40};
+  for (int algo = 0; algo < 6; ++algo)
+    for (unsigned a = 0; a < 6; ++a) {
+      convert_case<S, D, S *, D *>(sn, dn, algo, lens[a], "ptr,ptr", &mk_ptr<S>, &mk_ptr<D>);
+      convert_case<S, D, FwdRaw<S>, D *>(sn, dn, algo, lens[a], "fwd,ptr", &mk_fwd<S>, &mk_ptr<D>);
+      convert_case<S, D, S *, FwdRaw<D> >(sn, dn, algo, lens[a], "ptr,fwd", &mk_ptr<S>, &mk_fwd<D>);
+    }
+}
+
+// ---- construct_at with one argument of the element type: the constructor overload resolution picks, as in ::new (p) T(arg)
+struct FwdCtor {  // trivially copyable, with a perfect-forwarding constructor that wins for a non-const lvalue
+  int v, how;
+  FwdCtor() : v(0), how(0) {}
+  template <class U, class = typename std::enable_if<!std::is_same<typename std::decay<U>::type, int>::value>::type>
+  FwdCtor(U &&u) : v(u.v), how(3) {}
+  explicit FwdCtor(int x) : v(x), how(9) {}
+  FwdCtor(const FwdCtor &) = default;
+  FwdCtor(FwdCtor &&) = default;
+};
+struct TwoCopies {  // T(T&) and T(const T&) differ
+  int v, how;
+  TwoCopies() : v(0), how(0) {}
+  explicit TwoCopies(int x) : v(x), how(9) {}
+  TwoCopies(TwoCopies &o) : v(o.v), how(1) {}
+  TwoCopies(const TwoCopies &o) : v(o.v), how(2) {}
+  TwoCopies(TwoCopies &&o) : v(o.v), how(4) {}
+  ~TwoCopies() {}
+};
+template <class T>
+static void overload_case(const char *tn) {
+  for (int cat = 0; cat < 3; ++cat) {
+    char key[160];
+    snprintf(key, sizeof key, "construct_at<%s> argument category=%s", tn, cat == 0 ? "lvalue" : cat == 1 ? "const lvalue" : "rvalue");
+    if (!enum_begin(key)) continue;
+    feature(10);
+    alignas(T) unsigned char a[sizeof(T)], b[sizeof(T)];
+    T src(41);
+    const T &csrc = src;
+    T *pa = reinterpret_cast<T *>(a), *pb = reinterpret_cast<T *>(b);
+    T tmp1(41), tmp2(41);
+    if (cat == 0) {
+      ::new (static_cast<void *>(pb)) T(src);
+      amc::construct_at(pa, src);
+    } else if (cat == 1) {
+      ::new (static_cast<void *>(pb)) T(csrc);
+      amc::construct_at(pa, csrc);
+    } else {
+      ::new (static_cast<void *>(pb)) T(std::move(tmp1));
+      amc::construct_at(pa, std::move(tmp2));
+    }
+    if (pa->v != 41) violation(P15, "construct_at built value %d instead of 41", pa->v);
+    if (!failed() && pa->how != pb->how)
+      violation(P15, "construct_at used another constructor (tag %d) than ::new (p) T(arg) (tag %d): 1 T(T&), 2 T(const T&), 3 forwarding template, 4 T(T&&), 0 none (raw copy)", pa->how, pb->how);
+    pa->~T();
+    pb->~T();
+    enum_end(true);
+  }
+}
+
 template <class E>
 static void run_elem(const char *ename, bool copyable_family, bool has_magic) {
   std::vector<long> lens;
@@ -528,5 +645,14 @@ int main(int argc, char **argv) {
   array_cases<NTR>("NTR");
   array_cases<ThrM>("ThrM");
   array_cases<ThrMO>("ThrMO");
+  run_elem<ThrMNC>("ThrMNC(throwing move, noexcept copy)", false, true);
+  convert_cases<uint8_t, bool>("uint8_t", "bool");
+  convert_cases<int32_t, float>("int32_t", "float");
+  convert_cases<int16_t, int32_t>("int16_t", "int32_t");
+  convert_cases<int8_t, uint8_t>("int8_t", "uint8_t");
+  convert_cases<uint32_t, int32_t>("uint32_t", "int32_t");
+  convert_cases<char, bool>("char", "bool");
+  overload_case<FwdCtor>("FwdCtor");
+  overload_case<TwoCopies>("TwoCopies");
   return enum_finish(&feat, "");
 }
